@@ -489,7 +489,12 @@ func init() {
 		"runtime.SetFinalizer": nop,
 		"runtime.GC":           nop,
 		"runtime.Gosched":      func(fr *frame, args []value) value { fr.i.syncPoint("gosched"); return nil },
-		"runtime.NumCPU":       func(fr *frame, args []value) value { return 4 },
+		"runtime.NumCPU": func(fr *frame, args []value) value {
+			if n, ok := fr.i.ex.cfg.Params["NUMCPU"]; ok {
+				return n
+			}
+			return 4
+		},
 		"runtime.GOMAXPROCS":   func(fr *frame, args []value) value { return 4 },
 		"runtime.Caller": func(fr *frame, args []value) value {
 			return tuple{uintptr(0), "", 0, false}
@@ -822,6 +827,13 @@ func patternIntrinsic(fn *ssa.Function, name string) intrinsic {
 		// method of an instantiated or external type
 		if n := recvNamed(fn.Signature.Recv().Type()); n != nil && n.Obj().Pkg() != nil {
 			pkg = n.Obj().Pkg().Path()
+		}
+	}
+	if strings.HasPrefix(pkg, "github.com/open-telemetry/otel-arrow/api/") && fn.Name() == "String" && fn.Signature.Recv() != nil {
+		// protobuf enum/message String() goes through protobuf reflection: opaque text
+		return func(fr *frame, args []value) value {
+			fr.i.noteStub("protobuf String() methods render as opaque text")
+			return "<pb>"
 		}
 	}
 	switch {
